@@ -47,21 +47,21 @@ SN = "qats/fatigue/sn.py"
 anchor("sn_loga2", "loga1 m1 m2 nswitch", SN, "SNCurve.__init__", ("assign", "loga2", 0), inline=[])
 anchor("sn_sswitch", "loga1 m1 nswitch", SN, "SNCurve.__init__", ("assign", "sswitch", 0), inline=[])
 anchor("sn_a2", "loga2", SN, "SNCurve.__init__", ("assign", "a2", 0), inline=[])
-anchor("sn_n_single", "loga1 m1 s tcorr", SN, "SNCurve.n", ("assign", "n", 0), inline=[])
-anchor("sn_mask", "s sswitch tcorr", SN, "SNCurve.n", ("assign", "ind", 0), inline=[], ret="Bool")
-anchor("sn_n_upper", "loga1 m1 s tcorr", SN, "SNCurve.n", ("assign", "n[ind]", 0), inline=[])
-anchor("sn_n_lower", "loga2 m2 s tcorr", SN, "SNCurve.n", ("assign", "n[~ind]", 0), inline=[])
-anchor("sn_strength", "loga m n tcorr", SN, "SNCurve.fatigue_strength", ("assign", "s", 0), inline=[])
-anchor("sn_strength_mask", "n nswitch", SN, "SNCurve.fatigue_strength", ("iftest", 1, 1), inline=[], ret="Bool")
-anchor("sn_tcorr", "t t_exp t_ref", SN, "SNCurve.thickness_correction", ("assign", "tcorr", 0), inline=[])
-anchor("sn_tcorr_mask", "t t_ref", SN, "SNCurve.thickness_correction", ("iftest", 0), inline=[], ret="Bool")
+anchor("sn_n_single", "loga1 m1 s tcorr", SN, "SNCurve.n", [("assign", "n", 0), ("return", 0)], inline=[])
+anchor("sn_mask", "s sswitch tcorr", SN, "SNCurve.n", [("assign", "ind", 0), ("compare", "sswitch", 0)], inline=[], ret="Bool")
+anchor("sn_n_upper", "loga1 m1 s tcorr", SN, "SNCurve.n", [("assign", "n[ind]", 0), ("assign_sub", "n", 0)], inline=[])
+anchor("sn_n_lower", "loga2 m2 s tcorr", SN, "SNCurve.n", [("assign", "n[~ind]", 0), ("assign_sub", "n", 1)], inline=[])
+anchor("sn_strength", "loga m n tcorr", SN, "SNCurve.fatigue_strength", [("assign", "s", 0), ("return", -1)], inline=[])
+anchor("sn_strength_mask", "n nswitch", SN, "SNCurve.fatigue_strength", [("compare", "nswitch", 0), ("iftest", 1, 1)], inline=[], ret="Bool")
+anchor("sn_tcorr", "t t_exp t_ref", SN, "SNCurve.thickness_correction", [("assign", "tcorr", 0), ("return", -1)], inline=[])
+anchor("sn_tcorr_mask", "t t_ref", SN, "SNCurve.thickness_correction", [("compare", "t_ref", 0), ("iftest", 0)], inline=[], ret="Bool")
 anchor("sn_mw_single", "a1 h m1 q td v0", SN, "minersum_weibull", ("assign", "d", 1), inline=[],
        rename={"sn.m1": "m1", "sn.a1": "a1"})
 anchor("sn_mw_bilinear", "a1 a2 g1 g2 m1 m2 q td v0", SN, "minersum_weibull", ("assign", "d", 0), inline=[],
        rename={"sn.m1": "m1", "sn.a1": "a1", "sn.m2": "m2", "sn.a2": "a2"})
-anchor("sn_mw_x", "h q sswitch", SN, "minersum_weibull", ("callarg", "cigf", 0, 1), inline=[], rename={"sn.sswitch": "sswitch"})
-anchor("sn_mw_a1", "h m1", SN, "minersum_weibull", ("callarg", "cigf", 0, 0), inline=[], rename={"sn.m1": "m1"})
-anchor("sn_mw_a2", "h m2", SN, "minersum_weibull", ("callarg", "igf", 0, 0), inline=[], rename={"sn.m2": "m2"})
+anchor("sn_mw_x", "h q sswitch", SN, "minersum_weibull", ("callarg", r"_?cigf", 0, 1), inline=[], rename={"sn.sswitch": "sswitch"})
+anchor("sn_mw_a1", "h m1", SN, "minersum_weibull", ("callarg", r"_?cigf", 0, 0), inline=[], rename={"sn.m1": "m1"})
+anchor("sn_mw_a2", "h m2", SN, "minersum_weibull", ("callarg", r"_?igf", 0, 0), inline=[], rename={"sn.m2": "m2"})
 
 WB = "qats/stats/weibull.py"
 anchor("wb_kurt", "shape", WB, "Weibull.kurt", ("return", 0))
@@ -122,7 +122,7 @@ anchor("ecdf_symmetrical", "i n", EM, "empirical_cdf", ("assign", "f", 2), inlin
 anchor("ecdf_beard", "i n", EM, "empirical_cdf", ("assign", "f", 3), inline=[])
 anchor("ecdf_gringorten", "i n", EM, "empirical_cdf", ("assign", "f", 4), inline=[])
 CO = "qats/fatigue/corrections.py"
-anchor("gh_corrected", "means ranges uts", CO, "goodman_haigh", ("assign", "corrected_ranges", 0), inline=[])
+anchor("gh_corrected", "means ranges uts", CO, "goodman_haigh", [("assign", "corrected_ranges", 0), ("return", -1)], inline=[])
 MO = "qats/motions.py"
 for _i in range(3):
     for _j in range(3):
@@ -176,8 +176,40 @@ def norm(s):
 
 
 def pick_expr(fn, pick):
+    """`pick` is one pick or a list of alternatives tried in order (so that common clean-ups of the source — returning
+    an expression directly, renaming a mask variable, moving a nested helper — do not lose the anchor)"""
+    if isinstance(pick, list):
+        errs = []
+        for alt in pick:
+            try:
+                return pick_expr(fn, alt)
+            except TranslateError as e:
+                errs.append(str(e))
+        raise TranslateError("; ".join(errs))
     st = stmts_in_order(fn)
     kind = pick[0]
+    if kind == "compare":
+        # k-th comparison (source order, anywhere in the function) whose text contains the given substring
+        hits = []
+        for s_ in st:
+            if isinstance(s_, (ast.FunctionDef, ast.ClassDef)):
+                continue
+            own = [s_.test] if isinstance(s_, (ast.If, ast.While)) else \
+                [getattr(s_, f) for f in ("value", "test") if isinstance(getattr(s_, f, None), ast.AST)]
+            for root in own:
+                for n in ast.walk(root):
+                    if isinstance(n, ast.Compare) and pick[1] in norm(ast.unparse(n)) and id(n) not in [id(h[1]) for h in hits]:
+                        hits.append((s_, n))
+        if len(hits) <= pick[2]:
+            raise TranslateError("comparison #%d containing `%s` not found" % (pick[2], pick[1]))
+        return hits[pick[2]]
+    if kind == "assign_sub":
+        # k-th assignment to a subscript of the given name (e.g. `n[mask] = …`, whatever the mask is called)
+        hits = [(s_, s_.value) for s_ in st if isinstance(s_, ast.Assign) and len(s_.targets) == 1 and
+                isinstance(s_.targets[0], ast.Subscript) and norm(ast.unparse(s_.targets[0].value)) == pick[1]]
+        if len(hits) <= pick[2]:
+            raise TranslateError("subscript assignment #%d to `%s` not found" % (pick[2], pick[1]))
+        return hits[pick[2]]
     if kind == "assign":
         tgt, k = norm(pick[1]), pick[2]
         hits = []
@@ -205,7 +237,7 @@ def pick_expr(fn, pick):
             raise TranslateError("matrix element [%d][%d] of `%s` not found" % (pick[3], pick[4], pick[1]))
     if kind == "return":
         hits = [(s, s.value) for s in st if isinstance(s, ast.Return) and s.value is not None]
-        if len(hits) <= pick[1]:
+        if not (-len(hits) <= pick[1] < len(hits)):
             raise TranslateError("return #%d not found" % pick[1])
         return hits[pick[1]]
     if kind == "retitem":
@@ -229,9 +261,14 @@ def pick_expr(fn, pick):
         for s in st:
             if isinstance(s, (ast.FunctionDef, ast.ClassDef)):
                 continue
-            for n in ast.walk(s):
-                if isinstance(n, ast.Call) and norm(ast.unparse(n.func)) == fname:
-                    hits.append((s, n))
+            if hasattr(s, "body"):      # compound statement: only its own test / iterator; the body statements come separately
+                roots = [getattr(s, f) for f in ("test", "iter") if isinstance(getattr(s, f, None), ast.AST)]
+            else:
+                roots = [s]
+            for root in roots:
+                for n in ast.walk(root):
+                    if isinstance(n, ast.Call) and re.fullmatch(fname, norm(ast.unparse(n.func))):
+                        hits.append((s, n))
         # de-duplicate (walk of nested statements sees the same call several times)
         seen, uniq = set(), []
         for s, n in hits:
@@ -316,6 +353,14 @@ class Tr:
             if isinstance(e.value, bool) or not isinstance(e.value, (int, float)):
                 raise TranslateError("unsupported constant %r" % (e.value,))
             return lit(e.value)
+        if isinstance(e, ast.Name) and isinstance(self.env.get(e.id), _Frozen):
+            fz = self.env[e.id]
+            saved = self.env
+            self.env = fz.env
+            try:
+                return self.tr(fz.expr)
+            finally:
+                self.env = saved
         if isinstance(e, ast.Name):
             inline = self.a["inline"]
             # a local variable is inlined when the anchor asks for it, or — so that introducing a temporary in the source is
@@ -373,6 +418,18 @@ class Tr:
                 return self.tr(e.args[0])
             if fn == "zetac" and len(e.args) == 1:
                 return "(TranscOps.zetac %s)" % self.tr(e.args[0])
+            helper = simple_helper(self.a["file"], e.func)
+            if helper is not None and len(helper[0]) == len(e.args):
+                # `self._helper(a, b)` / `_helper(a, b)` with a single-return body: substitute the arguments
+                params, body = helper
+                saved = self.env
+                self.env = dict(saved)
+                for pn, av in zip(params, e.args):
+                    self.env[pn] = _Frozen(av, saved)
+                try:
+                    return self.tr(body)
+                finally:
+                    self.env = saved
             if not e.args and isinstance(e.func, ast.Name):
                 body = const_function(self.a["file"], e.func.id)
                 if body is not None:
@@ -387,6 +444,38 @@ class Tr:
 
 
 _cache = {}
+
+
+class _Frozen:
+    """an argument expression of an inlined helper call, to be translated in the caller's environment"""
+
+    def __init__(self, expr, env):
+        self.expr, self.env = expr, env
+
+
+def simple_helper(file, func):
+    """(parameter names, return expression) of a helper `def name(self?, a, b): [docstring]; return <expr>` of the same module,
+    called as `self.name(...)` or `name(...)`; None if there is no such helper"""
+    if isinstance(func, ast.Attribute) and isinstance(func.value, ast.Name) and func.value.id == "self":
+        name, method = func.attr, True
+    elif isinstance(func, ast.Name):
+        name, method = func.id, False
+    else:
+        return None
+    tree = parse(file)
+    for node in ast.walk(tree):
+        if isinstance(node, ast.FunctionDef) and node.name == name:
+            body = [b for b in node.body if not (isinstance(b, ast.Expr) and isinstance(b.value, ast.Constant))]
+            if len(body) == 1 and isinstance(body[0], ast.Return) and body[0].value is not None:
+                params = [a.arg for a in node.args.args]
+                if method and params and params[0] == "self":
+                    params = params[1:]
+                if not params:
+                    return None        # constant functions are handled by const_function
+                if node.args.vararg or node.args.kwarg or node.args.kwonlyargs:
+                    return None
+                return params, body[0].value
+    return None
 
 
 def const_function(file, name, depth=0):
@@ -421,6 +510,14 @@ def parse(file):
 
 
 def translate_anchor(a):
+    if isinstance(a["pick"], list):
+        errs = []
+        for alt in a["pick"]:
+            try:
+                return translate_anchor(dict(a, pick=alt))
+            except TranslateError as e:
+                errs.append("%s: %s" % (alt[0], e))
+        raise TranslateError("; ".join(errs))
     tree = parse(a["file"])
     fn = find_func(tree, a["func"])
     stmt, expr = pick_expr(fn, a["pick"])
@@ -436,7 +533,7 @@ def translate_anchor(a):
     src = norm(ast.unparse(expr))
     return dict(name=a["name"], params=a["params"], ret=a["ret"], ok=True,
                 text="/-- `%s` in `%s` (%s):  `%s` -/\ndef %s%s : %s :=\n  %s\n" % (
-                    a["pick"][1] if a["pick"][0] == "assign" else a["pick"][0], a["func"], a["file"],
+                    a["name"], a["func"], a["file"],
                     src.replace("-/", "- /")[:300], a["name"], sig_of(a), a["ret"], body))
 
 
